@@ -182,4 +182,8 @@ BuildHooks(t, hs) == IF hs = {} THEN t
        BuildHooks(SetRoute(t, h, hr.filters, hr.names, <<>>, <<h>>, FALSE).t, hs \ {h})
 Fresh == BuildHooks(BuildRoutes(RootNode, Dom(routes)), hooksIdx)
 FreshEquiv == LET f == Fresh IN \A p \in Probes : Get(tree, p) = Get(f, p)
+\* C11, state equivalence beyond lookups: the edited tree refuses a registration (route or hook) for its wildcard type
+\* exactly when a tree freshly built from the survivors refuses it -- no dead node keeps a filter alive
+FreshVerdict == LET f == Fresh IN \A r \in Universe \cup HookRules :
+   (Match(tree, r.pat, r.filters).mm = "FILTER") <=> (Match(f, r.pat, r.filters).mm = "FILTER")
 =============================================================================
